@@ -388,6 +388,42 @@ pub fn run_check(replay: Option<Value>) -> i32 {
             );
         }
     }
+    // at the time origin 2^50 (spacing of the doubles 0.25) with steps pinned at max_step = 2.85 (RK4: a fixed step of 0.3):
+    // the abscissa advances by 2.75 (0.25) per step, behind the nominal step - whatever the end of the interval is
+    // recognised by, no accepted step may be longer than max_step (plus the landing rule's 1 % and two ulps)
+    for m in M6 {
+        for backward in [false, true] {
+            let key = format!("far-origin-steps:{}:{}", mname(m), backward as u8);
+            if only.as_ref().map(|o| *o != key).unwrap_or(false) {
+                continue;
+            }
+            let dirn = if backward { -1.0 } else { 1.0 };
+            let p0 = base(Base::Decay(-0.001));
+            let p = if backward { crate::problems::reflect(&p0) } else { p0 };
+            let o = 2f64.powi(50);
+            let (h, span) = if m == Method::RK4 { (0.3, 30.0) } else { (2.85, 640.0) };
+            let mut c = Cfg::new(m, dirn * o, dirn * (o + span), &p.y0).tol(1e-4, 1e-6);
+            c.user_jac = true;
+            c.first_step = Some(dirn * h);
+            if m != Method::RK4 {
+                c.max_step = Some(h);
+            }
+            let low = crate::run::run_lowlevel(&p, &c, &[], &[], None, false);
+            rep.evaluations += 1;
+            rep.transitions += low.st.n_ode;
+            rep.validated += 1;
+            *rep.tags.entry("far-origin-steps".into()).or_insert(0) += 1;
+            let worst = low.recs.windows(2).map(|w| (w[1].x - w[0].x).abs()).fold(0.0f64, f64::max);
+            // (whether the run gets through its closing piece of a few ulps is not this property's business)
+            if low.recs.len() < 50 || worst > h * 1.01 + 0.5 {
+                rep.violations.push(
+                    Violation::new(&key, "max-step", format!("{} from {:e} over {} with steps pinned at {}: {:?}, {} callbacks, longest accepted step {:e}", mname(m), dirn * o, span, h, low.ok().map(|r| r.status), low.recs.len(), worst), json!({"key": key}))
+                        .with("method", mname(m))
+                        .with("backward", backward),
+                );
+            }
+        }
+    }
     if let Value::Array(a) = &mut rep.dims {
         a.push(json!({"group": "budget", "every_budget": "1 ..= nstep_full + 2", "configurations": groups}));
     }
